@@ -34,10 +34,38 @@ CHECKS = {
             "generated-input search on large real hosts; whole-file canonical-tree comparison of gopatch's output with the reference rewrite, imports as multiset",
             "Whole output files (up to 400 lines of real standard-library code around 1..n sites) are compared with the reference rewrite; any difference outside the rewritten fragments fails the check.",
             MODEL_NOTE, "DESIGN.md §4 C05"),
+    "C07": ("exploration",
+            "generated-input search (templates that put captured code where it does not fit, ill-typed grammar, mined patterns) through the API and 8 CLI mode x flag combinations; validity predicate: go/parser on every emitted content",
+            "Every content gopatch emits with exit 0 (in place, --print-only, --diff applied by a small applier, Apply result) is parsed; a reported error must name the file and leave it untouched.",
+            "Trusts go/parser as the definition of 'parses as a Go source file' and the harness's unified-diff applier.", "DESIGN.md §4 C07"),
+    "C09": ("exploration",
+            "generated change sequences (chains where change k+1 matches only code introduced by change k, failing steps, independent changes) delivered over -p / -P / stdin; differential oracle: combined run vs chain of single-change runs",
+            "The combined CLI run over 2-5 changes split into 1..n patch files must equal, as canonical trees with parentheses looked through, the result of running the changes one at a time on each other's output; a failing step must make the combined run fail and leave the file untouched.",
+            "Differential: both sides are gopatch; the single-change behaviour is judged by C01-C05. -p flags are given before -P.", "DESIGN.md §4 C09"),
+    "C10": ("exploration",
+            "complete enumeration of the import/package guard table (17k cells) plus generated cells with extra imports; oracle = the table in the property statement",
+            "Every cell of patch-side import form x file-side forms (incl. a path imported twice) x file layout x package clause x guard line kind x second guard is executed through patch.Parse/Apply; 'no effect' is checked as byte-identical output.",
+            "The table part is a complete enumeration of a finite space written from the property text; claimed as exploration because file layouts beyond the 8 enumerated ones are only sampled.", "DESIGN.md §4 C10"),
+    "C11": ("exploration",
+            "generated files with bystander imports of every form and patches that add / delete / replace / rename / match imports, oracle on the (name, path) multiset; plus mined patterns with '+import' lines on real hosts",
+            "Bystander imports must survive unchanged, nothing unmentioned may appear, '+' imports appear once under the right name, '-' imports disappear exactly when nothing refers to their package name any more (plain, nested-selector, call-selector, index-selector, func-literal and type-position uses are generated).",
+            "Package names are taken as the last path element / the explicit name; no shadowing locals (see C12 for that).", "DESIGN.md §4 C11"),
+    "C13": ("exploration",
+            "metamorphic: a base patch vs a drawn composition of meaning-preserving layout transformations of it; results compared as canonical trees; CLI sample for descriptions",
+            "Comment lines, blank lines, naming, description lines, metavariable renaming / regrouping / reordering, re-spacing, wrapping after commas, joining context lines, context line <-> identical -/+ pair: base and variant must both be rejected or give syntactically identical results.",
+            "Metamorphic relation between two runs of gopatch; the base behaviour itself is judged by C01-C05.", "DESIGN.md §4 C13"),
     "C15": ("exploration",
             "complete table of tree shapes x argument spellings plus generated directory trees and argument lists, against a reference walk; a non-idempotent patch makes double processing visible",
             "A fixed 39-entry tree crossed with every target, spelling and working directory (about 1470 cases) plus generated trees/argument lists through the CLI; the set of changed files, the number of applications per file and the -v listing must equal the reference walk written from the property text.",
             "Trusts the file-system snapshot (type, mode, size, mtime, inode, sha256) and a reference walk over the tree model; corners the statement leaves open (roots inside excluded directories, symlinked path components) are 'either'.", "DESIGN.md §4 C15"),
+    "C16": ("fault_enumeration",
+            "fault enumeration at system-call granularity (own ptrace injector cross-checked against strace; prlimit --fsize) over generated trees and patches, plus a complete table of per-file failure kinds at every position",
+            "For every recorded file-system call touching a target (open, write, chmod, rename, close, read) the call is failed with ENOSPC/EIO/EACCES and, separately, the process is killed on entry to it; size limits cut writes short; unparseable sources, rewrite errors, unparseable results, unreadable targets, missing paths and unloadable patches are placed at every position. Afterwards every Go file must hold its original or its complete patched bytes, failures must be reported with path and cause and a non-zero exit status, and other files must be unaffected.",
+            "Trusts ptrace/strace injection and prlimit; torn writes inside one write system call and power loss after rename are out of reach.", "DESIGN.md §4 C16"),
+    "C17": ("exploration",
+            "real hosts decorated by a comment injector (unique tokens) and patches of 1-3 changes; validity predicates on comment multisets and per-declaration comment lists",
+            "No comment may appear more often in the output than in the input; every top-level declaration whose code is unchanged keeps its doc, inner and trailing comments in order; header/package comments and free-standing comments between untouched declarations survive.",
+            "Comments are compared by whitespace-normalised text on gofmt-stable inputs; 'nothing was rewritten' is decided by exact equality of the declaration's syntax tree before and after.", "DESIGN.md §4 C17"),
     "C18": ("exploration",
             "enumerated table of 4067 header shapes x flag x modes plus generated compositions, against a three-valued reference predicate computed by a hand-written lexer",
             "Every header shape (marker spelling, comment style, placement) is run through the CLI with and without --skip-generated in several modes; must-skip files must be untouched and silent, must-process files must behave exactly as without the flag, the flag-off run must ignore markers.",
